@@ -54,6 +54,16 @@ func childTest(t *testing.T) {
 		idx := sp[0]
 		fmt.Fprintf(stdoutW, "B %s\n", idx)
 		stdoutW.Flush()
+		if strings.HasPrefix(sp[1], "txw ") {
+			obs := "bad-case"
+			if c, err := parseTxwCase(sp[1]); err == nil {
+				obs = "viol:test-failed"
+				t.Run("case", func(t *testing.T) { obs = runTxw(t, c) })
+			}
+			fmt.Fprintf(stdoutW, "R %s %s |\n", idx, obs)
+			stdoutW.Flush()
+			continue
+		}
 		cs, err := parseCase(sp[1])
 		if err != nil {
 			fmt.Fprintf(stdoutW, "R %s bad-case |\n", idx)
@@ -233,9 +243,11 @@ func run(out *Out, r *Rand, tier string, replay []string) {
 	}
 	outDir := outDirOf()
 	if replay != nil {
-		var fl []string
+		var fl, wl []string
 		for _, l := range replay {
 			switch strings.Fields(l)[0] {
+			case "txw":
+				wl = append(wl, l)
 			case "tx", "txd":
 				order, faults, ops := parseTxCase(l)
 				txOne(out, order, faults, ops, strings.Fields(l)[0] == "txd")
@@ -243,11 +255,14 @@ func run(out *Out, r *Rand, tier string, replay []string) {
 				fl = append(fl, l)
 			}
 		}
+		recordTxw(out, wl, runInChildren(outDir, wl))
 		recordFault(out, fl, runInChildren(outDir, fl))
 		out.Close(ruleText)
 		return
 	}
 	genTx(out, r, tier)
+	wl := genTxw(r, tier)
+	recordTxw(out, wl, runInChildren(outDir, wl))
 
 	// dry runs: operation counts of every scenario on either side without faults
 	var dry []string
@@ -362,6 +377,7 @@ func run(out *Out, r *Rand, tier string, replay []string) {
 }
 
 const ruleText = "tx: distinct (fault table, message sizes); non-trivial = at least one write fault. " +
+	"txw: distinct (deadline support, grace period, stream outcome table, context behaviours, message sizes); non-trivial = at least one stream fault. " +
 	"fault: distinct (scenario, side, fault kind, index, k, extra action, step); non-trivial = a fault or an extra action is injected"
 
 func outDirOf() string {
